@@ -23,7 +23,8 @@ import (
 )
 
 // Ev is one concrete event.  K: "init" (A=force), "resp" (A=k-th newest initiation, B=ref index),
-// "cr" (A=ref index), "recv" (A=session id), "send", "tick" (A=seconds),
+// "cr" (A=ref index), "recv" (A=session id: a data message), "recvka" (A=session id: a KEEPALIVE, i.e. a
+// zero-length transport message; nothing is written to the TUN, acceptance is read off rx_bytes), "send", "tick" (A=seconds),
 // "forge" (A=session id, B=variant: transport with that session's device index and a fresh counter that does
 // not authenticate), "replay" (A=session id: the last message sent under it, again),
 // "idle" (A=milliseconds the ages are shifted by, B=whole seconds: then REAL time passes, with the
@@ -177,6 +178,21 @@ func (r *runner) do(e Ev) Obs {
 		} else {
 			out = r.w.Take()
 		}
+	case "recvka":
+		if int(e.A) < len(r.sessions) && r.sessions[e.A] != nil {
+			rx0 := r.w.Dev.VerifPeer(r.pk).RxBytes
+			msg := r.sessions[e.A].Next([]byte{})
+			r.lastMsg[e.A] = msg
+			out = r.w.Inject(r.p.Addr, msg)
+			if !out.Settled {
+				r.slow = true
+			}
+			o := r.observe(out)
+			// an authenticated keepalive is counted (32 bytes) but never reaches the TUN
+			o.Tun = r.w.Dev.VerifPeer(r.pk).RxBytes > rx0
+			return o
+		}
+		out = r.w.Take()
 	case "forge":
 		if int(e.A) < len(r.sessions) && r.sessions[e.A] != nil {
 			sess := r.sessions[e.A]
@@ -386,6 +402,10 @@ const (
 	aRestart
 	aKeepalive
 	aAbandon
+	aRecvKaPrev
+	aRecvKaCur
+	aRecvKaNext
+	aRecvKaRetired
 )
 
 func (r *runner) sidOfIndex(idx uint32) (uint64, bool) {
@@ -473,6 +493,12 @@ func (r *runner) resolve(kind int, arg uint64, rnd *rand.Rand) []Ev {
 			v = uint64(rnd.Intn(64))
 		}
 		return []Ev{{K: "forge", A: evs[0].A, B: v}}
+	case aRecvKaPrev, aRecvKaCur, aRecvKaNext, aRecvKaRetired:
+		evs := r.resolve(map[int]int{aRecvKaPrev: aRecvPrev, aRecvKaCur: aRecvCur, aRecvKaNext: aRecvNext, aRecvKaRetired: aRecvUnaccepted}[kind], 0, rnd)
+		if evs == nil {
+			return nil
+		}
+		return []Ev{{K: "recvka", A: evs[0].A}}
 	case aRestart:
 		return []Ev{{K: "restart"}}
 	case aKeepalive:
@@ -622,6 +648,7 @@ var randomMix = []weighted{
 	{aCI, 14}, {aCR, 14}, {aRecvPrev, 7}, {aRecvCur, 9}, {aRecvNext, 8}, {aRecvRetired, 6}, {aRecvUnaccepted, 3},
 	{aSend, 14}, {aTick, 6}, {aTickEdge, 12}, {aInitiate, 4}, {aRespondStale, 2}, {aRespondNow, 3},
 	{aForgeNext, 7}, {aForgeCur, 3}, {aForgePrev, 2}, {aForgeRetired, 2}, {aReplay, 3}, {aRestart, 5}, {aKeepalive, 9}, {aAbandon, 6},
+	{aRecvKaNext, 8}, {aRecvKaCur, 5}, {aRecvKaPrev, 3}, {aRecvKaRetired, 3},
 }
 
 var tickChoices = []uint64{1, 4, 6, 45, 61, 119, 121, 164, 166, 179, 181}
@@ -657,7 +684,7 @@ func runRandom(rnd *rand.Rand, depth int) Case {
 			follow = []int{aRecvRetired, aRecvRetired, aRecvUnaccepted, aForgeRetired, aSend}[rnd.Intn(5)]
 		} else if kind == aTickEdge && rnd.Intn(10) < 6 {
 			// use the aged keys right away
-			follow = []int{aSend, aKeepalive, aKeepalive, aRecvCur, aRecvCur, aRecvPrev, aRecvNext}[rnd.Intn(7)]
+			follow = []int{aSend, aKeepalive, aKeepalive, aRecvCur, aRecvKaCur, aRecvPrev, aRecvNext, aRecvKaNext}[rnd.Intn(8)]
 		}
 		evs := r.resolve(kind, tickChoices[rnd.Intn(len(tickChoices))], rnd)
 		for _, e := range evs {
@@ -673,6 +700,9 @@ func runRandom(rnd *rand.Rand, depth int) Case {
 			sid = uint64(n - 1 - j)
 		}
 		e := Ev{K: "recv", A: sid}
+		if rnd.Intn(3) == 0 {
+			e.K = "recvka"
+		}
 		c.Evs = append(c.Evs, e)
 		c.Obs = append(c.Obs, r.do(e))
 	}
@@ -713,7 +743,7 @@ type absEv struct {
 	arg  uint64
 }
 
-var alphabet7 = []absEv{{aCI, 0}, {aCR, 0}, {aRecvPrev, 0}, {aRecvCur, 0}, {aRecvNext, 0}, {aRecvRetired, 0}, {aSend, 0}, {aTick, 61}, {aTick, 121}, {aForgeNext, 0}, {aRestart, 0}, {aKeepalive, 0}}
+var alphabet7 = []absEv{{aCI, 0}, {aCR, 0}, {aRecvPrev, 0}, {aRecvCur, 0}, {aRecvNext, 0}, {aRecvRetired, 0}, {aSend, 0}, {aTick, 61}, {aTick, 121}, {aForgeNext, 0}, {aRestart, 0}, {aKeepalive, 0}, {aRecvKaNext, 0}, {aRecvKaCur, 0}}
 
 // the extended alphabet: also short ticks (5 s spacing), timer-style initiation, stale response
 var alphabetFull = append(append([]absEv{}, alphabet7...), absEv{aTick, 4}, absEv{aTick, 45}, absEv{aInitiate, 0}, absEv{aRespondStale, 0}, absEv{aRespondNow, 0},
@@ -809,6 +839,8 @@ func stepInts(e Ev, o Obs) []uint64 {
 		k = 8
 	case "keepalive":
 		k = 9
+	case "recvka":
+		k, a = 11, e.A // the slice model treats a keepalive like a data message; "tun" carries "accepted"
 	case "abandon":
 		k = 10
 	case "retransmit":
